@@ -239,9 +239,26 @@ class Narrow:
                     out.append((v, False))
             elif isinstance(p, (ast.FunctionDef, ast.AsyncFunctionDef, ast.Lambda)):
                 break
+            self._earlier_guards(p, child, out)
             child = p
             p = getattr(p, '_parent', None)
+        if p is self.f.node:
+            self._earlier_guards(p, child, out)
         return out
+
+    @staticmethod
+    def _earlier_guards(p, child, out):
+        # earlier guards of the same block: `if T: ...; return|raise|continue|break` (no else) means not T here
+        from ..facts import _assigned_names, _names, _TERMINATORS
+        for field in ('body', 'orelse', 'finalbody'):
+            block = getattr(p, field, None)
+            if isinstance(block, list) and any(b is child for b in block):
+                i = [b is child for b in block].index(True)
+                for j in range(i):
+                    g = block[j]
+                    if isinstance(g, ast.If) and not g.orelse and g.body and isinstance(g.body[-1], _TERMINATORS) \
+                            and not _assigned_names(block[j + 1:i]) & _names(g.test):
+                        out.append((g.test, False))
 
 
 def value_sites(ctx, mod):
